@@ -13,7 +13,8 @@ import itertools
 import json
 import sys
 
-from probe_model import (VCODE, apply_op, canon_data, dump, param_json, pred_json, sent_json)
+from probe_model import (VCODE, Hang, apply_op, canon_data, dump, param_json, pred_json, sent_json,
+                         time_limit)
 
 
 def observe(m, max_tuples=64):
@@ -63,15 +64,20 @@ def direct():
         m = registry(case['logic']).Model()
         out = dict(err=None)
         try:
-            for i, op in enumerate(case['ops']):
-                apply_op(m, op)
-            m.finish()
+            with time_limit(10):
+                for i, op in enumerate(case['ops']):
+                    apply_op(m, op)
+                m.finish()
         except Exception as e:
             out['err'] = type(e).__name__
         out['cord'] = [c.subscript * 4 + c.index for c in m.constants]
         out['pord'] = {str(w): [pred_json(p) for p in fr.predicates] for w, fr in m.frames.items()}
         if out['err'] is None:
-            out.update(observe(m))
+            try:
+                with time_limit(30):
+                    out.update(observe(m))
+            except Hang:
+                out['err'] = 'Hang'
         res.append(out)
     json.dump(res, sys.stdout)
 
